@@ -338,7 +338,10 @@ def c20_3(ctx, r):
         tests = set()
         for n in ast.walk(lp):
             if isinstance(n, ast.If):
-                tests.add(ast.unparse(n.test))
+                t = n.test
+                while isinstance(t, ast.UnaryOp) and isinstance(t.op, ast.Not):
+                    t = t.operand
+                tests.add(ast.unparse(t))
         want = {f"{ast.unparse(lp.target)}.{p}()" for p in ("is_successful", "is_failed")}
         r.check(want <= tests, f"{fn.short}: classes are decided by Result.is_successful / is_failed (else canceled, asserted)", key_of(fn, "tally predicates"), fn.loc(lp),
                 f"tally branches test {sorted(tests)}")
@@ -464,7 +467,10 @@ def c20_5(ctx, r):
     r.check(okd and seen_cls == {"StructuredLogEvent", "StructuredErrorLogEvent"} and bool(raises),
             "the class is chosen by the written event_class; unknown classes raise", key_of(dv, "dispatch"), dv.loc(), "deserialize_event no longer dispatches on event_class / no longer raises on unknown classes")
     # timestamp given on read is kept (not replaced by now)
-    ok = any(isinstance(n, ast.If) and ast.unparse(n.test).replace("'", '"') == '"timestamp" in kwargs' and "kwargs.pop" in ast.unparse(n.body[0]) for n in iter_own(init.node))
+    ok = False
+    for n in ctx.cfg(init).nodes:
+        if n.kind == "stmt" and isinstance(n.ast, ast.Assign) and ast.unparse(n.ast.targets[0]) == "self.timestamp" and "kwargs.pop" in ast.unparse(n.ast.value):
+            ok = any(p and f.replace('"', "'") == "'timestamp' in kwargs" for f, p in guard_forms(ctx, init, n))
     r.check(ok, "a timestamp passed in is kept (consolidating again does not re-stamp)", key_of(init, "timestamp"), init.loc(), "StructuredLogEvent.__init__ no longer keeps a passed timestamp", "consolidating again does not change it")
     le = ctx.fn("loggers.log_event", "C20.5")
     okle = False
